@@ -179,6 +179,16 @@ func TestVerifC12(t *testing.T) {
 			check(exp, em.TypeID, statusPayload(code, "", false, false))
 		}
 	}
+	// every expected type whatsoever (responses with fields before the status, with several parameters, requests,
+	// messages without a status) answered by an ERROR_MESSAGE carrying each of these codes: always a status error
+	for _, code := range []int{0, 100, 101, 110, 401, 65535} {
+		for _, exp := range msgs {
+			if unsolicited(exp) {
+				continue
+			}
+			check(exp, em.TypeID, statusPayload(code, "", false, false))
+		}
+	}
 	// 2b. the reader's description is whatever bytes the reader sent: multi-byte UTF-8, Latin-1 / arbitrary bytes (not valid
 	// UTF-8), long, empty — the status must be exposed all the same
 	descs := []string{"n\xb0 7", "\xff\xfe\x00\x80", "température élevée", "读写器错误 😀", strings.Repeat("x", 300), strings.Repeat("é", 200), "\x00", "a\x80"}
